@@ -187,6 +187,7 @@ static void c08_run(vf_case *c)
             vf_check_ledger_since(c, "bisection run", info > n ? "nomem" : "ws", bmark);
         }
         size_t need = hi;
+        if (need + 8 >= G) vf_viol(c, "generous-workspace-reported-short", "%s: even %zu bytes (several times the dense n x n factors) are reported as insufficient although library allocation succeeded", rn, G);
         /* lengths: dense 4-byte grid in windows around 0, need and the pointer/work-array thresholds; coarse elsewhere */
         long win = c->tier ? 3072 : 1024; int nrun = 0, nshort = 0, nok = 0;
         for (int pass = 0; pass < 2 && c->nmore < 3; pass++) {
